@@ -147,9 +147,9 @@ def run(ctx):
     ctx.rule('R09a2', 'no attribute store on a receiver that denotes a shared object (spec, '
                       'parsing_state, latex_walker, latex_context, parser, ...) outside '
                       'constructor-time helpers', 1)
-    ctx.rule('R09b', 'module-level containers are written only by the memo idiom '
+    ctx.rule('R09b', 'module-level containers (outside latexencode/latex2text, see C04) are written only by the memo idiom '
                      '`if k not in D: D[k] = ctor(...)`, and everything the stored value is built '
-                     'from flows into the key', 2)
+                     'from flows into the key', 1)
     ctx.rule('R09c', 'mutable default argument values are never mutated in place nor stored', 4)
     ctx.rule('R09d2', 'deriving a database while parsing (extended_with / filtered_context) never '
                       'writes to the database it is called on: in-place updates only on containers '
@@ -315,7 +315,8 @@ def run(ctx):
                    construct='call sites of ' + hname)
     ctx.analysed['shared_receiver_stores'] = n2
 
-    _module_state(ctx, repo)
+    _module_state(ctx, repo, 'R09b', lambda name: not name.startswith(
+        ('pylatexenc.latexencode', 'pylatexenc.latex2text')))
     _mutable_defaults(ctx, repo)
     _db_mutators(ctx, repo)
 
@@ -375,9 +376,11 @@ def _local_fresh(fn, name):
     return False
 
 
-def _module_state(ctx, repo):
+def _module_state(ctx, repo, rule='R09b', modfilter=None):
     for mod in repo.modules.values():
         if mod.name.endswith('__main__'):
+            continue
+        if modfilter is not None and not modfilter(mod.name):
             continue
         containers = {}
         for st in mod.tree.body:
@@ -397,7 +400,7 @@ def _module_state(ctx, repo):
                                           and isinstance(t.ctx, ast.Store)}]
                     for s in assigns:
                         memo = any(pol and unparse(t) == '%s is None' % nm for t, pol in atomic_facts(s))
-                        ctx.decide('R09b', memo, mod, s, 'lazy one-time initialisation of a global',
+                        ctx.decide(rule, memo, mod, s, 'lazy one-time initialisation of a global',
                                    'function rebinds module global %s on every call: later calls '
                                    'observe earlier ones' % nm,
                                    construct='%s: global %s: %s' % (f.name, nm, short(s, 70)))
@@ -427,7 +430,7 @@ def _module_state(ctx, repo):
                 cname = tgt.value.id if isinstance(tgt, ast.Subscript) else call_recv(n).id
                 cons = '%s: %s' % (q, short(enclosing_stmt(n), 80))
                 if kind != 'subscript store' or not isinstance(n, ast.Assign):
-                    ctx.refuted('R09b', mod, enclosing_stmt(n),
+                    ctx.refuted(rule, mod, enclosing_stmt(n),
                                 '%s on module-level container %s outside the memo idiom' % (kind, cname),
                                 construct=cons)
                     continue
@@ -438,7 +441,16 @@ def _module_state(ctx, repo):
                     ((not pol) and unparse(t) == '%s in %s' % (keytxt, cname))
                     for t, pol in atomic_facts(n))
                 if not guarded:
-                    ctx.refuted('R09b', mod, n, 'store into module-level %s is not guarded by '
+                    # `v = D.get(key[, None]); if v is None: v = ctor(...); D[key] = v`
+                    getvars = {unparse(s3.targets[0]) for s3 in iter_own(f)
+                               if isinstance(s3, ast.Assign) and isinstance(s3.value, ast.Call)
+                               and call_name(s3.value) == 'get'
+                               and unparse(call_recv(s3.value)) == cname
+                               and s3.value.args and unparse(s3.value.args[0]) == keytxt}
+                    guarded = any(pol and unparse(t) in ['%s is None' % g for g in getvars]
+                                  for t, pol in atomic_facts(n))
+                if not guarded:
+                    ctx.refuted(rule, mod, n, 'store into module-level %s is not guarded by '
                                                 '`%s not in %s`: an existing entry is replaced' %
                                 (cname, keytxt, cname), construct=cons)
                     continue
@@ -477,7 +489,7 @@ def _module_state(ctx, repo):
                     miss_attrs = sorted(a for a in vattrs - kattrs if a in init_only)
                     if miss_attrs:
                         missing = missing + ['self.' + a for a in miss_attrs]
-                ctx.decide('R09b', not missing, mod, n,
+                ctx.decide(rule, not missing, mod, n,
                            'memo idiom; cached value built from %s, all part of the key'
                            % sorted(val_names),
                            'cached value depends on %s but the cache key %s does not: a later call '
